@@ -73,8 +73,12 @@ class VirtualPool:
     a harness error is raised (never a verdict).
     """
 
-    def __init__(self, order=None):
+    def __init__(self, order=None, lazy_pickle=False):
         self.order = None if order is None else list(order)
+        # lazy_pickle: a task's arguments are pickled when the task starts, i.e. after the parent has
+        # consumed every future that completes earlier (a real executor feeds its call queue
+        # progressively, so late tasks are pickled while the parent is already handling results)
+        self.lazy_pickle = bool(lazy_pickle)
         self.n_tasks = None
         self.applied = None
         self.executor_kwargs = None
@@ -104,8 +108,11 @@ class VirtualPool:
             def submit(self, fn, /, *args, **kwargs):
                 if self._shutdown:
                     raise RuntimeError('cannot schedule new futures after shutdown')
-                blob = pickle.dumps((fn, args, kwargs), protocol=pickle.HIGHEST_PROTOCOL)
-                ctrl.bytes_in += len(blob)
+                if ctrl.lazy_pickle:
+                    blob = (fn, args, kwargs)
+                else:
+                    blob = pickle.dumps((fn, args, kwargs), protocol=pickle.HIGHEST_PROTOCOL)
+                    ctrl.bytes_in += len(blob)
                 fut = Future()
                 fut._pv_index = len(self._tasks)
                 self._tasks.append((fut, blob))
@@ -116,6 +123,9 @@ class VirtualPool:
                 if fut.done():
                     return fut
                 fut.set_running_or_notify_cancel()
+                if not isinstance(blob, bytes):
+                    blob = pickle.dumps(blob, protocol=pickle.HIGHEST_PROTOCOL)
+                    ctrl.bytes_in += len(blob)
                 fn, args, kwargs = pickle.loads(blob)
                 try:
                     res = fn(*args, **kwargs)
@@ -125,6 +135,18 @@ class VirtualPool:
                 except Exception as exc:  # noqa: BLE001  (delivered through the future, like a real pool)
                     fut.set_exception(exc)
                 return fut
+
+            def map(self, fn, *iterables, timeout=None, chunksize=1):
+                # not used by the pinned code; kept so that a variant using Executor.map still runs
+                # through the chosen completion order instead of failing inside the harness
+                futs = [self.submit(fn, *args) for args in zip(*iterables)]
+                n = len(futs)
+                order = ctrl.order if ctrl.order is not None and sorted(ctrl.order) == list(range(n)) \
+                    else list(range(n))
+                ctrl.n_tasks, ctrl.applied = n, list(order)
+                for k in order:
+                    self._run(futs[k]._pv_index)
+                return (f.result() for f in futs)
 
             def shutdown(self, wait=True, *, cancel_futures=False):
                 if not self._shutdown:
@@ -242,8 +264,22 @@ def real_pool_main(spec_path, out_path):
     from photutils.segmentation import deblend_sources
 
     rng = core.case_rng(spec['pid'], spec['seed'], spec['shard'], spec['idx'])
-    built = c06.build_inputs(rng, spec['cls'])
-    res = {'built': built is not None, 'runs': []}
+    # redraw (deterministically, same rng stream) until the scene has >= 4 tasks and >= 1 split parent
+    built = ref = None
+    res = {'built': False, 'runs': [], 'attempts': 0}
+    for attempt in range(8):
+        res['attempts'] = attempt + 1
+        cand = c06.build_inputs(rng, spec['cls'])
+        if cand is None:
+            continue
+        t0 = time.time()
+        cref = deblend_sources(cand['data'], cand['seg'], labels=cand['labels_arg'], connectivity=cand['conn'],
+                               nproc=1, progress_bar=False, **cand['kw'])
+        res['serial_s'] = time.time() - t0
+        built, ref = cand, cref
+        if cand['n_eligible'] >= 4 and len(cref.deblended_labels_inverse_map) >= 1:
+            break
+    res['built'] = built is not None
     if built is None:
         with open(out_path, 'w') as f:
             json.dump(res, f)
@@ -251,10 +287,6 @@ def real_pool_main(spec_path, out_path):
     data, seg, kw, labels_arg = built['data'], built['seg'], built['kw'], built['labels_arg']
     res['n_labels'] = int(seg.nlabels)
     seg_bytes = seg.data.tobytes()
-    t0 = time.time()
-    ref = deblend_sources(data, seg, labels=labels_arg, connectivity=built['conn'], nproc=1,
-                          progress_bar=False, **kw)
-    res['serial_s'] = time.time() - t0
     ref_snap = snapshot(ref)
     res['ref_nlabels'] = int(ref.nlabels)
     res['ref_nsplit'] = len(ref.deblended_labels_inverse_map)
